@@ -14,6 +14,7 @@ import Rare.Proofs.C05CloseProg
 import Rare.Proofs.C05CloseInv
 import Rare.Proofs.C05SignalTrace
 import Rare.Proofs.C05HB
+import Rare.Proofs.C05HBTable
 /-!
 # C05 — race-free, atomic renders, complete final render
 
@@ -758,6 +759,40 @@ example : Lockset.HB2.Exec Lockset.HB2.logDemo (Lockset.HB2.statesOf Lockset.HB2
     Lockset.HB2.conflictB ⟨1, .acc 8 true false⟩ ⟨2, .acc 8 false false⟩ = true ∧
     Lockset.HB2.conflictB ⟨2, .acc 9 true true⟩ ⟨1, .acc 9 false true⟩ = false :=
   ⟨Lockset.HB2.logDemo_exec, Lockset.HB2.logDemo_no_race, by decide, by decide, by decide⟩
+
+/-- **From the check on a table to the executions** (Proofs/C05HBTable.lean).  What the extractor's syntactic analysis is
+    trusted for is written down as the hypothesis `Abstracts`: every access of the execution is made at a site of the
+    table (outside the constructors); accesses to one location are sites the table calls conflicting; a site marked
+    atomic is an atomic access; a site marked "W" / "R" runs while its thread holds that mutex exclusively / as a
+    reader; a site the table orders with another role is ordered with it by happens-before.  Under that hypothesis
+    any table that passes `raceFree` – the Batcher, Extractor, ignore-set, ObjectPool, logger and multiterm tables of
+    `lockset_ok` – has only data-race-free executions.  (This is the exact content of "partial" for the first clause of
+    C05: the theorem is unconditional about tables and traces; the link between them is this hypothesis.) -/
+theorem lockset_tables_sound_given_abstraction (ctors : List String) (accs : List Gen.Access.Acc)
+    (hrf : Lockset.raceFree ctors accs = true)
+    {tr : List Lockset.HB2.Ev} {hs : Nat → Lockset.HB2.Locks} {site : Nat → Option Gen.Access.Acc} {mid : String → Nat}
+    (hex : Lockset.HB2.Exec tr hs)
+    (habs : Lockset.HB2.Abstracts tr hs (Lockset.shared ctors accs) site mid) : ¬ Lockset.HB2.Race tr :=
+  Lockset.HB2.table_no_race hex habs ((Lockset.raceFree_iff _ _).mp hrf)
+
+/-- … instantiated with the regenerated tables of the Batcher (status shared between readers and renderer) and of the
+    logger (printers under `RLock`, `DeferLogs`/`ImmediateLogs` under `Lock`). -/
+theorem lockset_batcher_logger_executions_race_free
+    {tr : List Lockset.HB2.Ev} {hs : Nat → Lockset.HB2.Locks} {site : Nat → Option Gen.Access.Acc} {mid : String → Nat}
+    (hex : Lockset.HB2.Exec tr hs)
+    (habs : Lockset.HB2.Abstracts tr hs (Lockset.shared Gen.Access.batcherCtors Gen.Access.batcher) site mid ∨
+            Lockset.HB2.Abstracts tr hs (Lockset.shared Gen.Access.loggerCtors Gen.Access.logger) site mid) :
+    ¬ Lockset.HB2.Race tr := by
+  rcases habs with h | h
+  · exact lockset_tables_sound_given_abstraction _ _ lockset_ok.1 hex h
+  · exact lockset_tables_sound_given_abstraction _ _ lockset_ok.2.2.2.2.1 hex h
+
+/-- Non-vacuity: the hypothesis `Abstracts` is satisfiable – a logger-shaped execution (write under `Lock`, read by
+    another goroutine under `RLock`) and the two table rows it abstracts to; the rows pass the check, the execution
+    is race free. -/
+example : Lockset.HB2.Abstracts Lockset.HB2.tblDemo (Lockset.HB2.statesOf Lockset.HB2.tblDemo)
+    [Lockset.HB2.rowW, Lockset.HB2.rowR] Lockset.HB2.tblSite (fun _ => 0) ∧ ¬ Lockset.HB2.Race Lockset.HB2.tblDemo :=
+  ⟨Lockset.HB2.tblDemo_abstracts, Lockset.HB2.tblDemo_no_race⟩
 
 /-- Non-vacuity: two threads that each lock, write the same location and unlock form an execution that
     satisfies the hypotheses. -/
